@@ -100,6 +100,11 @@ impl Out {
     }
 }
 
+// root of the verification tree (bin/check passes its own location)
+pub fn verif_root() -> String {
+    std::env::var("VERIF_ROOT").unwrap_or_else(|_| "/verif".to_owned())
+}
+
 fn load_skip() -> std::collections::HashSet<String> {
     let mut set = std::collections::HashSet::new();
     if let Ok(p) = std::env::var("VERIF_SKIP") {
